@@ -14,7 +14,7 @@ for _v, _n in (("node_lon", "n_node"), ("edge_lon", "n_edge"), ("face_lon", "n_f
     # values already in range are left exactly as they were
     _cl.append(f"forall(0, {_n}, lambda i: implies(not exists(0, {_n}, lambda k: {_old}[k] > 180), eqr({_new}[i], {_old}[i])))")
 
-contract("uxarray.grid.coordinates._set_desired_longitude_range", props=["C04", "C01", "C19"],
+contract("uxarray.grid.coordinates._set_desired_longitude_range", props=["C04", "C01", "C19", "C20"],
          sizes=["n_node", "n_edge", "n_face"],
          # the dataset is the Grid's own (owner 'self'): its variables may be re-bound; the ARRAYS are never written in place
          params={"ds": f"obj('Dataset', owner='self', vars={_VARS!r})"},
